@@ -131,6 +131,10 @@ const (
 )
 
 func setHash(mode string, n int, seed uint64) {
+	// one scenario in six of the deterministic modes uses the extreme-value
+	// variant (top 24 hash bits zero for a quarter of the keys); decided by the
+	// table seed so that no generator draws change
+	simrt.SetHashZeroTop(mode != "native" && mode != "collide" && simrt.Mix64(seed^0x70B0)%6 == 0)
 	switch mode {
 	case "native":
 		simrt.SetHashMode(simrt.HashNative, 1, seed)
@@ -187,7 +191,7 @@ func RunConc(sc *ConcScenario, want Want) *ConcResult {
 		sim.NowHook = func(s *simrt.Sim) { s.Advance(tick, false, 0) }
 	}
 	defer sim.Close()
-	w := &World{sim: sim}
+	w := &World{sim: sim, swapCB: sc.Prop == "C13"}
 	cacheFam := sc.Family == "cache"
 	if cacheFam {
 		var cb func(int, int64)
